@@ -916,7 +916,9 @@ impl<R: Read> RdbReader<R> {
                             };
                             
                             // Check if we have enough remaining data for all fields
-                            if entry_idx + (field_count * 2) > remaining_count {
+                            // (the count comes from the file: computed without overflow)
+                            let needed = field_count.checked_mul(2).and_then(|n| n.checked_add(entry_idx));
+                            if needed.map_or(true, |n| n > remaining_count) {
                                 break; // Not enough data for all field-value pairs
                             }
                             
